@@ -242,7 +242,7 @@ class Scale(EnvironmentFilter):
             scale_den = iqr(values)
         elif scale == "maxabs":
             scale_num = 1
-            scale_den = max(map(abs,map(shift.__add__,values)))
+            scale_den = max(abs(v+shift) for v in values)
 
         return scale_num if scale_den < .000001 else scale_num/scale_den
 
